@@ -25,6 +25,9 @@ package main
 //   4. objects of T do not travel: in T's package a *T variable is only selected from, passed to functions of the
 //      package, compared, copied to another local or returned by a constructor that returns a fresh object; a holder
 //      is only ever assigned such a constructor's result, compared and used as a method-call receiver.
+// A channel that the waiting select loop itself keeps receiving from (a service arm, see C04.i) cannot hold the
+// signalling goroutine up: c2 must not be one of those. A receive elsewhere in the waiting method does not count —
+// the goroutine that waits is not executing it (collecting once before a plain wait is not enough).
 // If any step cannot be established the wait is not judged by this rule (C04.i still applies).
 
 import (
@@ -517,6 +520,7 @@ func (k *c04kWorld) isBlockingSend(fi *FuncInfo, c2 *types.Var, T *types.Named) 
 func c04NoWaitCycle(c *Ctx) {
 	c.Clauses = append(c.Clauses, "C04.j a goroutine whose confirmation the shutdown path waits for does not, on every path to that confirmation, first have to hand a value to the very goroutine that is waiting (the input goroutine runs Close on a kill signal and in its panic handler, and is the only receiver of the parser's sequence channel)")
 	c.expect("C04.j", 1)
+	c.Assume = append(c.Assume, "C04.j: the shutdown path (Close/Suspend) is run by one goroutine at a time: a receive inside the waiting method other than the wait itself is not being executed by a second goroutine while the first one waits")
 	suspend := c.P.Func("vaxis.(*Vaxis).Suspend")
 	cl := c.P.Func("vaxis.(*Vaxis).Close")
 	if suspend == nil || cl == nil {
@@ -569,8 +573,8 @@ func c04NoWaitCycle(c *Ctx) {
 func (k *c04kWorld) cycle(wt *c04jSite, members map[types.Object][]types.Object, classWakes map[types.Object][]*c04jSite) (bool, string) {
 	c := k.c
 	w := k.c04jWorld
-	if wt.kind != "receive" || len(wt.ents) != 1 {
-		return false, "not a single receive"
+	if (wt.kind != "receive" && wt.kind != "select") || len(wt.ents) != 1 || len(wt.recvX) != 1 {
+		return false, "the wait is not ended by a single receive"
 	}
 	// step 1: `<-r.f` in a method of T on its own receiver
 	fi := wt.fi
@@ -586,13 +590,13 @@ func (k *c04kWorld) cycle(wt *c04jSite, members map[types.Object][]types.Object,
 	if T == nil || !c04kIsPtrTo(rv.Type(), T) {
 		return false, "the method has no pointer receiver of a named type"
 	}
-	u, ok := wt.node.(*ast.UnaryExpr)
-	if !ok {
-		return false, "not a receive expression"
-	}
-	f := c04kOwnField(info, u.X, T)
+	f := c04kOwnField(info, wt.recvX[0], T)
 	if f == nil {
 		return false, "the channel is not a field of the method's receiver"
+	}
+	served := map[types.Object]bool{}
+	for _, e := range wt.serves {
+		served[w.find(e)] = true
 	}
 	root := w.find(f)
 	for _, m := range members[root] {
@@ -656,6 +660,7 @@ func (k *c04kWorld) cycle(wt *c04jSite, members map[types.Object][]types.Object,
 			levels = append(levels, lv)
 		}
 		var c2s []*types.Var
+		var servedNames []string
 		for i := 0; i < st.NumFields(); i++ {
 			c2 := st.Field(i)
 			if !c04jIsChan(c2.Type()) || w.find(c2) == root {
@@ -674,6 +679,11 @@ func (k *c04kWorld) cycle(wt *c04jSite, members map[types.Object][]types.Object,
 				}
 			}
 			if !ahead {
+				continue
+			}
+			if served[w.find(c2)] {
+				// the waiter keeps taking values from c2 while it waits (a service arm of its select loop)
+				servedNames = append(servedNames, c04jEntName(c2))
 				continue
 			}
 			// a loop of the goroutine can send on c2 as well: more values than any buffer holds
@@ -719,6 +729,9 @@ func (k *c04kWorld) cycle(wt *c04jSite, members map[types.Object][]types.Object,
 			if loops {
 				c2s = append(c2s, c2)
 			}
+		}
+		if len(c2s) == 0 && len(servedNames) > 0 {
+			return false, fmt.Sprintf("while it waits, %s itself keeps receiving from %s (an arm of its select loop that returns to the select), so %s cannot stay blocked sending on it before its %s on %s", wt.fi.Name, strings.Join(servedNames, ", "), wk.fi.Name, wk.kind, c04jEntName(f))
 		}
 		if len(c2s) == 0 {
 			return false, fmt.Sprintf("%s never has its %s on %s ahead of it while it can be in a plain blocking send on another channel of the object", wk.fi.Name, wk.kind, c04jEntName(f))
@@ -783,7 +796,7 @@ func (k *c04kWorld) cycle(wt *c04jSite, members map[types.Object][]types.Object,
 			served := ""
 			okOne := false
 			for _, c2 := range b.c2 {
-				why := k.onlyServedBy(c2, h, g, T, members)
+				why := k.onlyServedBy(c2, h, g, T, members, wt)
 				if why == "" {
 					okOne = true
 					chain = append(chain, fmt.Sprintf("%s can be in a plain blocking send on %[4]s (values are sent in a loop) with its %[2]s on %[3]s (%[5]s) still ahead", b.wake.fi.Name, b.wake.kind, c04jEntName(f), c04jEntName(c2), c.P.Pos(b.wake.node.Pos())))
@@ -837,7 +850,7 @@ func (k *c04kWorld) hasSend(fi *FuncInfo, c2 *types.Var, T *types.Named) bool {
 }
 
 // onlyServedBy: step 3 ("" = established).
-func (k *c04kWorld) onlyServedBy(c2 *types.Var, h types.Object, g *c04jGo, T *types.Named, members map[types.Object][]types.Object) string {
+func (k *c04kWorld) onlyServedBy(c2 *types.Var, h types.Object, g *c04jGo, T *types.Named, members map[types.Object][]types.Object, wt *c04jSite) string {
 	w := k.c04jWorld
 	r2 := w.find(c2)
 	for _, m := range members[r2] {
@@ -859,6 +872,13 @@ func (k *c04kWorld) onlyServedBy(c2 *types.Var, h types.Object, g *c04jGo, T *ty
 			x = t.X
 		}
 		call, ok := c04jStrip(x).(*ast.CallExpr)
+		if !ok && r.fi == wt.fi && c04kOwnField(info, x, T) == c2 {
+			// a receive in the wait's own method, on its own receiver: it is performed by whoever executes that
+			// method for this object — the goroutine under examination, which is blocked at the wait (receives
+			// that belong to the waiting select itself are its service arms and were dealt with before). Another
+			// goroutine in the same method at the same time would be a second, concurrent shutdown (assumption).
+			continue
+		}
 		if !ok {
 			return fmt.Sprintf("%s is received from directly in %s", c04jEntName(c2), r.fi.Name)
 		}
